@@ -1527,7 +1527,7 @@ class All(AtLeast):
     """
     
     def __init__(self, *propositions, variable: typing.Union[str, puan.variable] = None):
-        super().__init__(value=len(set(propositions)), propositions=propositions, variable=variable)
+        super().__init__(value=len(propositions), propositions=propositions, variable=variable)
 
     @staticmethod
     def from_json(data: typing.Dict[str, typing.Any], class_map) -> "All":
